@@ -1,6 +1,5 @@
 package vsim
 
-
 import (
 	"bytes"
 	"fmt"
